@@ -9,6 +9,7 @@ import (
 	"fmt"
 	"os"
 	"path/filepath"
+	"regexp"
 	"strings"
 
 	"github.com/tetratelabs/wazero"
@@ -20,6 +21,8 @@ import (
 	"verifharness/sim"
 	"verifharness/tape"
 )
+
+var direntName = regexp.MustCompile(`i\d+-entry-\d\d`)
 
 type c11 struct{}
 
@@ -91,6 +94,7 @@ type world struct {
 	cur       *instRun // instance whose call currently runs (for the host function)
 	sched     bool     // host function yields to the scheduler
 	instErr   error    // an instantiation next to other instances failed
+	populate  int      // entries created in every instance's directory before it starts
 }
 
 func newRuntime(engine string, cache wazero.CompilationCache, w *world) wazero.Runtime {
@@ -148,6 +152,10 @@ func (w *world) instantiate(rt wazero.Runtime, bin []byte, root string, idx int)
 	}
 	in.dir = filepath.Join(root, fmt.Sprintf("i%d", idx))
 	os.MkdirAll(in.dir, 0o755)
+	// enough entries, named after the instance, for several host-side read batches of fd_readdir
+	for k := 0; k < w.populate; k++ {
+		os.WriteFile(filepath.Join(in.dir, fmt.Sprintf("i%d-entry-%02d", idx, k)), nil, 0o644)
+	}
 	// one CompiledModule per (runtime, binary): instances of the SAME compiled module
 	key := fmt.Sprintf("%p/%x", rt, sha256.Sum256(bin))
 	cm := w.compiled[key]
@@ -207,7 +215,21 @@ func snapshot(in *instRun) string {
 	var sb strings.Builder
 	mem := in.mod.Memory()
 	all, _ := mem.Read(0, mem.Size())
-	fmt.Fprintf(&sb, "pages=%d mem=%x cells=", mem.Size()/65536, sha256.Sum256(all))
+	// the fd_readdir buffer (and the bytes-used word before it) depends on the host's directory order and
+	// inode numbers, which differ between the directories of the two executions: left out of the hash;
+	// what is judged is that it holds no entry NAME of another instance's directory
+	cp := append([]byte(nil), all...)
+	names := direntName.FindAll(append([]byte(nil), cp[0x400:0x400+0x200]...), -1)
+	for i := 0x3f0; i < 0x400+0x200; i++ {
+		cp[i] = 0
+	}
+	var foreign []string
+	for _, n := range names {
+		if !bytes.HasPrefix(n, []byte(filepath.Base(in.dir)+"-")) && string(n) != "f" {
+			foreign = append(foreign, string(n))
+		}
+	}
+	fmt.Fprintf(&sb, "pages=%d mem=%x foreign-directory-entries=%v cells=", mem.Size()/65536, sha256.Sum256(cp), foreign)
 	for c := 0; c < plan.NCells; c++ {
 		v, _ := mem.ReadUint32Le(uint32(8 * c))
 		fmt.Fprintf(&sb, "%d,", int32(v))
@@ -228,6 +250,12 @@ func snapshot(in *instRun) string {
 func (c11) Run(t *tape.Tape, cfg sim.Config) (res sim.Result) {
 	ctx := context.Background()
 	o := plan.Opts{MinFuncs: 3, MaxFuncs: 7, MaxAtoms: 6, Host: true, Traps: true, Exit: true, Grow: true, Table: true, Segments: true, WASI: true, HostTags: 4, GRef: true, Atomics: true, Wide: true}
+	populate := 0
+	if t.Chance(1, 3) {
+		populate = 10
+		o.ReaddirHeavy = true
+		o.HostTags = 4
+	}
 	pa := plan.Generate(t, o)
 	pa.Name = "pa"
 	pb := plan.Generate(t, o)
@@ -279,7 +307,7 @@ func (c11) Run(t *tape.Tape, cfg sim.Config) (res sim.Result) {
 	// ---- together
 	os.MkdirAll(filepath.Join(root, "multi"), 0o755)
 	os.MkdirAll(filepath.Join(root, "lone"), 0o755)
-	w := &world{ctx: ctx, sched: true}
+	w := &world{ctx: ctx, sched: true, populate: populate}
 	if t.Chance(1, 2) {
 		f, err := os.CreateTemp(root, "shared-log-*")
 		if err != nil {
@@ -395,7 +423,7 @@ func (c11) Run(t *tape.Tape, cfg sim.Config) (res sim.Result) {
 		if insts[i] == nil {
 			continue
 		}
-		lw := &world{ctx: ctx}
+		lw := &world{ctx: ctx, populate: populate}
 		defer func() {
 			for _, f := range lw.files {
 				f.Close()
